@@ -410,7 +410,7 @@ func TestC16_Histories(t *testing.T) {
 				cs := model.m[name]
 				s := srv[cs.server]
 				si := cs.server
-				switch k := rapid.SampledFrom([]string{"version", "rotate_keep", "rotate_drop", "disable", "remove_suite", "auth_conflict", "auth_compatible", "other_server"}).Draw(t, "change"); k {
+				switch k := rapid.SampledFrom([]string{"retire_oldest", "retire_oldest", "version", "rotate_keep", "rotate_drop", "disable", "remove_suite", "auth_conflict", "auth_compatible", "other_server"}).Draw(t, "change"); k {
 				case "version":
 					if gm {
 						t.Skip("GMSSL has one version")
@@ -422,6 +422,16 @@ func TestC16_Histories(t *testing.T) {
 					if len(s.keys) > 3 {
 						s.keys = s.keys[:3]
 					}
+				case "retire_oldest":
+					// the oldest key is retired, the primary stays: tickets sealed (or refreshed) under the primary survive
+					if len(s.keys) < 2 {
+						s.keys = append([][32]byte{keyN(nextKey)}, s.keys...)
+						nextKey++
+						hist = append(hist, "rotate(keep)")
+						connect(t, si, name) // resumes and is refreshed under the new primary
+					}
+					s.keys = s.keys[:len(s.keys)-1]
+					hist = append(hist, "retire_oldest")
 				case "rotate_drop":
 					s.keys = [][32]byte{keyN(nextKey)}
 					nextKey++
